@@ -3,6 +3,7 @@
 From TV Require Import Base.Prelude Base.Utf8 Base.Winnow Gen.Consts Extract.Show.
 From TV Require Import Model.Datetime Model.DatetimeStd Model.Numbers Model.Tree Model.Parse Model.Document Model.Write Model.Encode.
 From TV Require Spec.Norm.
+From TV Require Extract.Cmd_front.
 Require Import String.
 
 Definition first_some {A} (a b : option A) : option A := match a with Some _ => a | None => b end.
@@ -187,11 +188,11 @@ Definition run_cmd (name : bytes) (args : list bytes) : bytes :=
   else if bytes_eqb name (str "dtp") then cmd_dtp args
   else if bytes_eqb name (str "doc") then match args with [s] => cmd_doc s | _ => str "bad-args" end
   else if bytes_eqb name (str "val") then match args with [s] => cmd_val s | _ => str "bad-args" end
-  else if bytes_eqb name (str "docv") then match args with [s] => cmd_docv s | _ => str "bad-args" end
+  else if bytes_eqb name (str "docv") then match args with [s] => Cmd_front.cmd_docv_front s | _ => str "bad-args" end
   else if bytes_eqb name (str "rt") then match args with [s] => cmd_rt s | _ => str "bad-args" end
   else if bytes_eqb name (str "depth") then match args with [s] => cmd_depth s | _ => str "bad-args" end
   else if bytes_eqb name (str "fuzz") then match args with [s] => cmd_fuzz s | _ => str "bad-args" end
   else if bytes_eqb name (str "spans") then match args with [s] => cmd_spans s | _ => str "bad-args" end
-  else if bytes_eqb name (str "docf") then match args with [s] => cmd_docf s | _ => str "bad-args" end
+  else if bytes_eqb name (str "docf") then match args with [s] => Cmd_front.cmd_docf_front s | _ => str "bad-args" end
   else if bytes_eqb name (str "norm") then match args with [s] => show_hex (Norm.normalize s) | _ => str "bad-args" end
   else str "unknown-command".
